@@ -164,6 +164,12 @@ Theorem enum_definitions_are_unit_elements : forall n dt key name p items tc,
               (IEnum 0 mods0 key name false false (option_map pn2_out p) (map strip_e items) FinNone).
 Proof. exact enum_definition_is_statement. Qed.
 
+Theorem opaque_enum_declarations_are_unit_elements : forall n dt key name p,
+  enum_key key -> (forall X, base_ok p (ktok T_LIT_59 :: X)) ->
+  one_step_ns n dt (map ktok key ++ mkTk T_NAME name :: ktok T_LIT_58 :: pn2_toks p ++ [ktok T_LIT_59]) (IEnumFwd 0 key name (pn2_out p)).
+Proof. exact opaque_enum_is_statement. Qed.
+
+Print Assumptions opaque_enum_declarations_are_unit_elements.
 Print Assumptions using_directives_are_unit_elements.
 Print Assumptions using_declarations_are_unit_elements.
 Print Assumptions aliases_are_unit_elements.
